@@ -184,12 +184,19 @@ def check_registries(rep: Report, ctx: Any, rid: str) -> None:
                           where(b, n), lhs=norm(n.test), rhs="true whenever existing is not this enum kind or values differ")
         rep.require(found, f"{cname}.build compatibility test")
 
-    # ---- conflict resolution ends in a re-check ---------------------------------------------------------------------
+    check_param_conflicts(rep, ctx, rid, cfgs)
+
+
+def check_param_conflicts(rep: Report, ctx: Any, rid: str, cfgs: "dict[str, CFG] | None" = None) -> None:
+    """conflict resolution of operation parameters ends in a re-check; reserved names are examined for every parameter"""
+    ix = ctx.py
+    cfgs = cfgs if cfgs is not None else {}
     ep = ix.cls("Endpoint")
     f = ep.methods.get("_check_parameters_for_conflicts")
     rep.require(f, "Endpoint._check_parameters_for_conflicts")
     cfg = cfg_of(f, cfgs)
-    loops = [n for n in ast.walk(f.node) if isinstance(n, ast.For) and "iter_all_parameters" in norm(n.iter)]
+    loops = [n for n in ast.walk(f.node) if isinstance(n, ast.For) and any(
+        isinstance(x, ast.Name) and x.id == "reserved_names" for s_ in n.body for x in ast.walk(s_))]
     rep.require(loops, "parameter loop in _check_parameters_for_conflicts")
     loop = loops[0]
     renames = [s for s in cfg.stmts() if stmt_calls(s, "set_python_name")]
